@@ -59,13 +59,6 @@ func TestSweepE1(t *testing.T) {
 	fmt.Printf("runs=%d wall=%v sim=%s harness=%d\n", n, time.Since(start), fmtT(simNs), harness)
 }
 
-func trunc(s string, n int) string {
-	if len(s) > n {
-		return s[:n] + "…"
-	}
-	return s
-}
-
 // TestOneE1 dumps one generated run (SIM_SEED base, SIM_RUN index).
 func TestOneE1(t *testing.T) {
 	base := uint64(envInt("SIM_SEED", 1))
@@ -87,4 +80,30 @@ func TestOneE1(t *testing.T) {
 		fmt.Printf("VIOL %s :: %s %v\n", v.Class, v.Msg, v.Seqs)
 	}
 	fmt.Printf("hang=%v harness=%q faults=%v\n", res.Hang, res.Harness, res.Faults)
+}
+
+// TestDumpRun prints the event log of one run of a batch (SIM_ENGINE, SIM_PROP, SIM_BASE, SIM_IDX).
+func TestDumpRun(t *testing.T) {
+	engName := os.Getenv("SIM_ENGINE")
+	if engName == "" {
+		t.Skip()
+	}
+	job := &Job{Engine: engName, Property: os.Getenv("SIM_PROP"), BaseSeed: uint64(envInt("SIM_BASE", 1)), Mode: os.Getenv("SIM_MODE")}
+	idx := envInt("SIM_IDX", 0)
+	seed := RunSeed(job.BaseSeed, job.Engine, job.Property, idx)
+	spec := engines[engName].gen(seed, job, idx)
+	if os.Getenv("SIM_SPEC") != "" {
+		b, _ := json.Marshal(spec)
+		fmt.Println(string(b))
+	}
+	res := RunOne(t, spec)
+	for _, e := range res.Events {
+		e.Plan = nil
+		b, _ := json.Marshal(e)
+		fmt.Println(string(b))
+	}
+	for _, v := range filterProp(engines[engName].eval(res), job.Property, os.Getenv("SIM_ALL") != "") {
+		fmt.Printf("VIOL %s :: %s %v\n", v.Class, v.Msg, v.Seqs)
+	}
+	fmt.Printf("hang=%v harness=%q faults=%v hash=%x\n", res.Hang, res.Harness, res.Faults, FullHash(res))
 }
